@@ -31,6 +31,8 @@ def violations(lengths):
         v.append(('reserved close code %d' % code, ref.server_frame(8, struct.pack('!H', code))))
     v.append(('invalid utf-8 in text', ref.server_frame(1, b'ab\xff')))
     v.append(('invalid utf-8 in close reason', ref.server_frame(8, struct.pack('!H', 1000) + b'\xc0\x80')))
+    v.append(('invalid utf-8 in a non-final continuation of a text message whose first fragment is empty', ref.server_frame(1, b'', fin=0) + ref.server_frame(0, b'\xff\xfe', fin=0)))
+    v.append(('invalid utf-8 in a non-final continuation of a text message', ref.server_frame(1, b'ok', fin=0) + ref.server_frame(0, b'\xff\xfe', fin=0)))
     return v
 
 
@@ -78,19 +80,21 @@ def replay(obligation, extra):
     for nprefix in (0, 3):
         pre = b''.join(ref.server_frame(op, p) for op, p in PREFIX[:nprefix])
         for name, bad in violations(lengths):
-            stream = pre + bad + ref.server_frame(1, b'after')
-            for cuts in (None, 'bytewise'):
-                kw = {}
-                if cuts == 'bytewise':
-                    kw['cuts'] = range(1, 4096)
-                for auto_pong in (True, False):
-                    tried += 1
-                    run = harness.drive(stream=stream, connect_kwargs=dict(ping_rate=0, auto_pong=auto_pong), **kw)
-                    err = judge(name, run, nprefix)
-                    if err:
-                        return dict(found=True, input='%d valid messages, then: %s%s%s' % (nprefix, name, ' (one byte per read)' if cuts else '', '' if auto_pong else ' (auto_pong off)'),
-                                    expected='prefix delivered, one ProtocolError, nothing after, non-graceful Disconnected, at most one Close written',
-                                    observed=err, events=[harness.ev_summary(e) for e in run.events][-6:], stream=stream[:48].hex())
+            for trailing_name, trailing in (('', ref.server_frame(1, b'after')), (', then a Ping', ref.server_frame(9, b'late'))):
+                stream = pre + bad + trailing
+                name2 = name + trailing_name
+                for cuts in (None, 'bytewise'):
+                    kw = {}
+                    if cuts == 'bytewise':
+                        kw['cuts'] = range(1, 4096)
+                    for auto_pong in (True, False):
+                        tried += 1
+                        run = harness.drive(stream=stream, connect_kwargs=dict(ping_rate=0, auto_pong=auto_pong), **kw)
+                        err = judge(name2, run, nprefix)
+                        if err:
+                            return dict(found=True, input='%d valid messages, then: %s%s%s' % (nprefix, name2, ' (one byte per read)' if cuts else '', '' if auto_pong else ' (auto_pong off)'),
+                                        expected='prefix delivered, one ProtocolError, nothing after, non-graceful Disconnected, at most one Close written',
+                                        observed=err, events=[harness.ev_summary(e) for e in run.events][-6:], stream=stream[:48].hex())
     for name, bad in compressed_violations():
         for auto_pong in (True, False):
             tried += 1
